@@ -1896,12 +1896,24 @@ fn parse_num_radix<const RADIX: u8>(s: &str) -> Result<f64, ParseNumRadixError> 
         number = number * u128::from(RADIX) + u128::from(digit);
     }
 
-    let mut number = number as f64;
+    // Digits that do not fit in 128 bits only matter for rounding.
+    let mut num_extra_digits = 0u32;
     for chr in chars {
-        if chr.to_digit(RADIX.into()).is_none() {
-            return Err(ParseNumRadixError::InvalidDigit(chr));
+        let digit = chr
+            .to_digit(RADIX.into())
+            .ok_or(ParseNumRadixError::InvalidDigit(chr))?;
+        if digit != 0 {
+            number |= 1;
         }
+        num_extra_digits = num_extra_digits.saturating_add(1);
+    }
+
+    let mut number = number as f64;
+    for _ in 0..num_extra_digits {
         number *= f64::from(RADIX);
+        if !number.is_finite() {
+            break;
+        }
     }
 
     if !number.is_finite() {
